@@ -54,7 +54,10 @@ PagesAnswer(t, slash) ==
       c2 == IF KindOf(cand) = "none" /\ cand # <<>> /\ HasHtml(LastName(cand))
               THEN SubSeq(cand, 1, Len(cand) - 1) \o <<WithHtml(LastName(cand))>> ELSE cand
   IN IF KindOf(c2) = "file" /\ (~slash \/ c2 # t) THEN [k |-> "file", p |-> c2]
-     ELSE IF KindOf(c2) = "dir" /\ ~slash THEN [k |-> "redirect", p |-> c2]
+     \* (only the requested path itself: a candidate "x.html" / "index.html" that happens to be a directory is not a directory URL.
+     \*  The code before commit 6a3f767 tested the candidate: "/z" with a directory "z.html" was redirected, "/d2/" with a
+     \*  directory "d2/index.html" was redirected for ever.)
+     ELSE IF KindOf(t) = "dir" /\ ~slash THEN [k |-> "redirect", p |-> t]
      ELSE NotFound
 Answer(a, ss) ==
   LET t == Resolved(ss) IN
@@ -107,4 +110,6 @@ RedirectThenIndex == (Done /\ hops = 1) =>
    IF KindOf(Append(d, "index.html")) = "file" THEN outcome = [k |-> "file", p |-> Append(d, "index.html")]
    ELSE outcome = NotFound
 NoRedirectLoop == hops <= 1 /\ (Done => outcome.k # "redirect")
+\* only a directory URL is redirected (not a path whose ".html" / "index.html" candidate happens to be a directory)
+RedirectOnlyDirs == hops = 1 => KindOf(Resolved(segs)) = "dir"
 ==========================================================================
